@@ -352,6 +352,8 @@ def expand(cx, v, k, node):
         return [V(f"({v.lean}.getD {i} {d})", "vec" if v.ty == "pts" else "nat") for i in range(k)]
     if v.ty == "edge" and k == 2:
         return [V(f"{v.lean}.1", "nat"), V(f"{v.lean}.2", "nat")]
+    if v.ty == "opt3" and k == 3:       # (T, iA, iB) = direct_face(a, b, True): T is None exactly when the directed side is absent
+        return [V(f"({v.lean}.map (·.1))", "optnat"), V(f"({v.lean}.getD (0, 0, 0)).2.1", "nat"), V(f"({v.lean}.getD (0, 0, 0)).2.2", "nat")]
     cx.err(f"cannot unpack a {v.ty} into {k} values", node)
 
 
@@ -473,6 +475,8 @@ def call(cx, n, env):
         if not all(i.ty == "vec" for i in items): cx.err("np.array of non-vectors", n)
         return V(None, "rows", items=items)
     # --- connectivity queries that the models treat as given ---------------------------------------------------
+    if f == "mesh.connectivity.direct_face" and len(n.args) == 3 and isinstance(n.args[2], ast.Constant) and n.args[2].value is True and not n.keywords:
+        return V(f"(directFace faces {nat_expr(cx, n.args[0], env)} {nat_expr(cx, n.args[1], env)})", "opt3")
     if f == "mesh.connectivity.vertex_to_faces" and len(n.args) == 1:
         return V(f"(vertexFaces faces {nat_expr(cx, n.args[0], env)})", "natlist")
     if f == "mesh.connectivity.face_to_corners" and len(n.args) == 1:
@@ -1229,6 +1233,8 @@ ATTRS += [
          keys={"has:face_corners:angles": ("has_angles", "bool"), "get:face_corners:angles": ("angles", "attr:cs")}),
 ]
 ATTRS += [
+    dict(file=AF + "attr_edges.py", name="cotan_weights", elem="reflist", params=[P_F, P_E],
+         sources={"cotan": ("face_corners", "cotan", "cotangent", "cot", "attr:ref")}),
     dict(file=AF + "attr_vertices.py", name="angle_defects", elem="defect",
          params=[P_VS, P_F, ("zero_border", "zero_border", "Bool", "bool")],
          sources={"angles": ("face_corners", "angles", "corner_angles", "ang", "attr:ref")}),
